@@ -7,6 +7,48 @@ HERE = pathlib.Path(__file__).resolve().parent
 BASE = "cd /repo && /venv/bin/python -m pytest -ra -q -p no:cacheprovider --timeout=900 --continue-on-collection-errors"
 
 META = {
+    "C01": dict(
+        technique="abstract evaluation of dispatch predicates on a stdlib class catalogue (table reachability/precedence) + term classification of marshal wire forms vs unmarshal reader forms + path rules for temporal reconstruction",
+        text="Partial: decides the structural necessary conditions of the round trip — every _HANDLERS row reachable and ordered specific-first in both directions, each scalar family's marshal wire form and unmarshal reader form an inverse pair, temporal reconstructions copy every constructor field, tzinfo re-attached after .time(), duration writer covers weeks. Value-level equality through str()/isoformat()/pendulum is not decided.",
+        note="Trusts the stdlib hierarchy oracle and the curated inverse-pair table; pendulum/json parser behaviour and union value acceptance are out of reach (listed in evidence assumptions).",
+        ref="DESIGN.md §4 C01",
+    ),
+    "C03": dict(
+        technique="provenance (taint) analysis over symbolic terms of every unmarshaller path: raw members vs context-resolved member routines; dominating class guards on returns",
+        text="Partial: every composite unmarshaller's output is shown to contain only members converted by context-resolved routines; every scalar/temporal return is class-guarded on its path, constructed from the target class or delegated; fixed tuples are arity-checked; Literal returns dominated by membership. Holds on every path, hence for every input that can take it. Required TypedDict keys and Enum membership semantics are not decided.",
+        note="Trusts constructor semantics of the target classes and the oracle; NoOp routines are pass-through by contract.",
+        ref="DESIGN.md §4 C03",
+    ),
+    "C04": dict(
+        technique="whole-package call-site sweep (UTC discipline) + extraction of the ISO-8601 duration writer from f-string terms against the designator table + guarded-path dataflow",
+        text="Partial: epoch readings are UTC at every fromtimestamp/now site, the duration writer's (component, designator) pairs, order, fraction width and week coverage are checked against the ISO table, numbers reach timedelta only as un-narrowed seconds=, temporal inputs to text/number types flow through isoformat/unixtime under the matching guard. Exact parse-back of str(v) by Python's/pendulum's parsers is not decided.",
+        note="Trusts pendulum.Duration's attribute decomposition and the ISO designator table; one known finding ('PT'/'P1DT' language) pinned by an existing test.",
+        ref="DESIGN.md §4 C04",
+    ),
+    "C05": dict(
+        technique="dataflow of context keys in the routine factories + slot provenance analysis (constructor lookups by type argument) matched against the component each slot is applied to; sibling fact comparison",
+        text="Partial: the context is keyed by annotation (type and unwrapped) never by field name; every member routine applied in a composite __call__ was resolved from the context by the right type argument / hint and meets its own component (keys/values/i-th member/field); both api siblings agree. Equality with independently built member routines on values is not decided.",
+        note="Trusts graph.static_order's members-first order (C09) and zip/dict semantics.",
+        ref="DESIGN.md §4 C05",
+    ),
+    "C06": dict(
+        technique="return-shape classification of every marshaller's return term into a JSON-plain lattice + mutation/ambient effect analysis over paths",
+        text="Partial: every marshaller returns str/isoformat/enum value/pattern/cast or a freshly built list/dict of converted members; no container row returns its input; no marshal path mutates the input or reads ambient state; Literal non-members raise ValueError. That str(v)/.value are JSON-encodable is assumed for U.",
+        note="Trusts the lattice of accepted wire forms listed in the checker; subclass instances under Any are pass-through by contract.",
+        ref="DESIGN.md §4 C06",
+    ),
+    "C08": dict(
+        technique="order-transformer abstract domain over the member-stack expression + exception-coverage analysis (may-raise sets vs suppress tuple) + path rules for the None fast path and terminal raise",
+        text="Partial: both union routines keep declared member order (identity or stable none-first), return the first acceptor, honour None first, raise ValueError when exhausted, suppress the same classes, and the suppress tuple covers every member family's may-raise set. Which member accepts a given value is not decided.",
+        note="Trusts the curated raise-set table of stdlib constructors (oracle.RAISE_SETS).",
+        ref="DESIGN.md §4 C08",
+    ),
+    "C17": dict(
+        technique="constant-table cross-check against the runtime's ABC hierarchy + abstract evaluation of each predicate on a stdlib catalogue",
+        text="Narrow partial claim: GENERIC_TYPE_MAP kinds and spelling parity, the class set each class-valued predicate tests versus its contract base, origin() normalisation, raising predicates only behind the special-form filters, BUILTIN/STDLIB table derivation, and agreement of the abstractly evaluated predicates with issubclass on the catalogue. The differential over every object of every predicate's domain is a runtime comparison and is not decided.",
+        note="Trusts the frozen contract table (predicate -> base) in the checker and the stdlib oracle.",
+        ref="DESIGN.md §4 C17",
+    ),
     "C10": dict(
         technique="abstract interpretation of binder return expressions to effect summaries + exhaustive table cross-check (32 rows x concrete call shapes) over the AST",
         text="Decides the whole dispatch statically: every AbstractBinding.__call__ is reduced to an effect summary, _get_binding is evaluated per parameter kind, and all 32 _BINDING_CLS_MATRIX rows are simulated on those summaries for every call shape Python accepts (1-2 parameters per kind, 0-2 extras) against Python's own binding rule. Holds for every signature whose kinds fall in a row because binders never look at anything but kind-level facts.",
